@@ -221,10 +221,18 @@ Definition show_outv (v : outv) : string :=
   | VErr e => "E:" ++ show_exn e
   end.
 
-(* externals of a kernel-lane run: log/erfinv are not available (laws that need them
-   are not evaluated in the VM), exp(-mu) comes from a table of the doubles the
-   implementation computed; seeds are not used (the feeder prescribes the draws). *)
+(* externals of a kernel-lane run: log/erfinv are not available — log is the constant 1 so that
+   the Geometric/Exponential samplers consume their draw without raising (their values are
+   not compared), erfinv and sqrt 2 are 0; exp(-mu) comes from a table of the doubles the
+   implementation computed; seeds are not used (the feeder prescribes the draws).
+   Output: per operation "<value>@<draws consumed so far>". *)
 Definition vm_expneg (tbl : list (Q * Q)) : Q -> Q := lookupQ tbl.
+Fixpoint vm_trace (tbl : list (Q * Q)) (fuel : nat) (ops : list op) (s : rstate) : list string :=
+  match ops with
+  | [] => []
+  | o :: r =>
+      let '(v, s1) := run_op (fun _ => 1) (fun _ => 0) 0 (vm_expneg tbl) fuel (fun _ _ => 0) o s in
+      (show_outv v ++ "@" ++ show_nat (pos s1)) :: vm_trace tbl fuel r s1
+  end.
 Definition vm_run (tbl : list (Q * Q)) (fuel : nat) (ops : list op) (l : list Q) : string :=
-  let '(vs, s) := run_ops (fun _ => 0) (fun _ => 0) 0 (vm_expneg tbl) fuel (fun _ _ => 0) ops (start l) in
-  String.concat "|" (map show_outv vs) ++ "#" ++ show_nat (pos s).
+  String.concat "|" (vm_trace tbl fuel ops (start l)).
